@@ -20,8 +20,15 @@ MAPS = {"typescript": [{}, {}, {"Url": "string"}, {"Vec<u8>": "Uint8Array"}, {"O
                     "Vec<String>": "datetime", "HashMap<String,String>": "bytes"}],
         "scala": [{}, {}, {"Url": "String"}, {"OffsetDateTime": "String"}, {"Foo": "FooMapped", "Bar": "Map[String, Any]"},
                   {"Vec<u8>": "Array[Byte]", "u8": "Short", "Option<String>": "Maybe"}],
+        "go": [{}, {}, {"Url": "string"}, {"OffsetDateTime": "time.Time"}, {"Vec<u8>": "[]byte"}, {"Foo": "FooMapped", "Id": "uuid.UUID"},
+               {"Option<String>": "*Str", "HashMap<String,u8>": "Dict", "char": "string", "()": "Unit"},
+               {"Vec<String>": "Strings", "[u8]": "Bytes", "&[u8]": "ByteSlice"}],
         "swift": [{}, {}, {"Url": "URL"}, {"OffsetDateTime": "Date"}, {"Url": "URL", "OffsetDateTime": "Date", "Foo": "FooMapped"},
                   {"T": "Mapped", "Wrapper": "Box", "Vec<u8>": "Data"}, {"Pair": "Tuple2", "Id": "UUID", "String": "NSString", "()": "Void"}]}
+# go: acronym lists (incl. tag keys, overlapping / empty / underscore / non-ASCII entries), package names
+GO_ACRONYMS = [[], [], ["id", "url"], ["ID", "Url", "line"], ["type", "kind", "id"], ["foo", "foo_bar", "bar"], ["a", "b"],
+               ["", "id"], ["_", "user_id"], ["i", "d", "id"], ["inner", "variant", "s"], ["é", "id"], ["ü", "e"], ["ñ"], ["ß", "name"]]
+GO_PACKAGES = ["proto", "com.example.pkg", "", "my_pkg"]
 SWIFT_DECS = [[], [], [], ["Equatable"], ["Sendable", "Hashable"], ["Codable"], ["Equatable", "Equatable"], ["String"], [" Padded "]]
 SWIFT_GCS = [[], [], [], ["Equatable"], ["Sendable & Identifiable"], ["Hashable&Codable", " Equatable "], ["Z", "A & M", "A"], [""], ["Equatable & "]]
 SWIFT_CVC = [[], [], ["Equatable"], ["Sendable", "Hashable"], ["Codable"], ["Equatable", "Codable", "Equatable"]]
@@ -37,6 +44,11 @@ for i in range(N):
            "package": "com.example.pkg", "module_name": rng.choice(["mod", "", "Other"]), "prefix": rng.choice(["", "", "OP", "Core_"])}
     if lang == "kotlin":
         cfg["package"] = rng.choice(["com.example.pkg", "com.example.pkg", "", "x"])
+    if lang == "go":
+        g.o["nonascii"] = rng.choice([0.0, 0.0, 0.1, 0.3])
+        cfg["package"] = rng.choice(GO_PACKAGES)
+        cfg["uppercase_acronyms"] = rng.choice(GO_ACRONYMS)
+        cfg["no_pointer_slice"] = rng.random() < 0.4
     if lang == "swift":
         cfg["prefix"] = rng.choice(["", "", "OP", "Core_", "`", "Ty", "Sel"])
         cfg["default_decorators"] = rng.choice(SWIFT_DECS)
